@@ -180,6 +180,8 @@ def r19_2(ctx):
     ctx.check("compound regex anchored at the start", c.func.attr in ("match", "fullmatch"), "re.match", f"re.{c.func.attr}", w)
     ctx.check("compound regex anchored at the end", atoms and atoms[-1].kind == "at" and "END" in atoms[-1].text, "$", rx.describe(atoms[-1:]), w)
     ctx.check("compound regex subject is the behaviour itself", U(c.args[1]) == param, param, U(c.args[1]), w)
+    rebinds = [U(n)[:70] for n in ast.walk(fi.node) if isinstance(n, (ast.Assign, ast.AugAssign)) and any(isinstance(t, ast.Name) and t.id == param for t in (n.targets if isinstance(n, ast.Assign) else [n.target]))]
+    ctx.check("the behaviour text is not rewritten before it is split", not rebinds, "no assignment to the parameter", str(rebinds), w)
     unc = rx.uncaptured_nonliterals(atoms)
     ctx.check("no consuming atom outside a capture group", not unc, "text before, between and after the markers is captured", str(unc), w)
     shape = rx.describe(atoms)
